@@ -191,7 +191,8 @@ Definition step (s : st) (e : ev) : st :=
             if negb (o_chan c) then updop o (fun c => c <| o_status := SError |> <| o_rx := false |> <| o_call := None |>) s   (* EndOfStream *)
             else match o_tmo c with
                  | Some d => if t0 + d <=? now s then
-                               let s1 := updop o (fun c => c <| o_status := SError |> <| o_rx := false |> <| o_call := None |>) s in
+                               (* Err(Timeout): next() sets the state to Error; the receiver is kept until finish() or drop *)
+                               let s1 := updop o (fun c => c <| o_status := SError |> <| o_call := None |>) s in
                                if is_running s then s1 <| scrubq ::= fun q => q ++ [o_mid c] |> else s1
                              else updop o (fun c => c <| o_call := Some t0 |>) s
                  | None => updop o (fun c => c <| o_call := Some t0 |>) s end
